@@ -149,5 +149,5 @@ Definition chk_sock_C01 (c o : value) : bool :=
 
 Definition chk_C01 (fam : bytes) (c o : value) : bool :=
   if beq fam (B "reqhead") then chk_reqhead c o
-  else if beq fam (B "sock") then chk_sock_C01 c o
+  else if beq fam (B "sock") || beq fam (B "sockbig") then chk_sock_C01 c o
   else true.
